@@ -18,12 +18,13 @@ QUICK = [
     ("S4", HOLD_DESC, 1, "FULL"),
     ("S1", DROP_ASC, 2, "FULL"),
     ("S2r", HOLD_DESC, 1, "FULL"),
+    ("S5", DROP_ASC, 1, "FULL"),
     ("S0", DROP_ASC, 3, "FULL"),
 ]
 THOROUGH = []
 for _c in (DROP_ASC, HOLD_DESC, DROP_DESC, HOLD_ASC):
     THOROUGH += [("S2", _c, 2, "FULL"), ("S4", _c, 2, "FULL"), ("S1", _c, 3, "FULL"), ("S2r", _c, 2, "FULL"), ("S0", _c, 4, "FULL"),
-                 ("S4r", _c, 2, "FULL"), ("S2", _c, 3, "STRUCT")]
+                 ("S4r", _c, 2, "FULL"), ("S2", _c, 3, "STRUCT"), ("S5", _c, 2, "EDIT")]
 
 P = TreeProp(
     "C09",
